@@ -10,6 +10,7 @@ import Mingus.Props.C06
 import Mingus.Props.C07
 import Mingus.Props.C07Forms
 import Mingus.Props.C08
+import Mingus.Props.C09
 import Mingus.Tie.C01
 import Mingus.Tie.C02
 import Mingus.Tie.C03
@@ -18,3 +19,4 @@ import Mingus.Tie.C05
 import Mingus.Tie.C06
 import Mingus.Tie.C07
 import Mingus.Tie.C08
+import Mingus.Tie.C09
